@@ -146,6 +146,23 @@ pub fn check_lookup(c: &LookupCase, st: &mut Stats) -> Result<(), String> {
                     return Err(format!("at u={u} offset {}: from_timespec gives {dt} (unix {}), expected {cv:?}", w.off, dt.unix_time()));
                 }
                 check_dt(&dt)?;
+                // side entrances to the same lookup: the nanosecond-count constructor, and projections of the same instant held by a
+                // UTC value and by a value whose type has the SAME offset but another flag / designation (the answer is the zone's type)
+                let same = |name: &str, r: Result<DateTime, TzError>| -> Result<(), String> {
+                    let o = r.map_err(|e| format!("at u={u} ns={ns}: {name} failed ({e:?}) where from_timespec succeeds"))?;
+                    if (o.year(), o.month(), o.month_day(), o.hour(), o.minute(), o.second(), o.unix_time(), o.nanoseconds()) != (dt.year(), dt.month(), dt.month_day(), dt.hour(), dt.minute(), dt.second(), u, ns) || !w.same_as(o.local_time_type()) {
+                        return Err(format!("zone {z:?}: at u={u} ns={ns}: {name} gives {o} with type {:?}, from_timespec gives {dt} with type {:?}", o.local_time_type(), dt.local_time_type()));
+                    }
+                    Ok(())
+                };
+                same("DateTime::from_total_nanoseconds", DateTime::from_total_nanoseconds(u as i128 * 1_000_000_000 + ns as i128, zr))?;
+                if let Ok(utc) = tz::UtcDateTime::from_timespec(u, ns) {
+                    same("UtcDateTime::project", utc.project(zr))?;
+                }
+                if let Ok(other) = tz::LocalTimeType::new(w.off, !w.dst, Some(b"QQQ")).map_err(|_| ()).and_then(|l| DateTime::from_timespec_and_local(u, ns, l).map_err(|_| ())) {
+                    same("DateTime::project from a type with the same offset", other.project(zr))?;
+                }
+                st.class("side_entrances_compared");
             } else if !matches!(dt, Err(TzError::OutOfRange)) {
                 return Err(format!("at u={u} offset {}: instant+offset leaves the supported range, expected Err(OutOfRange), got {dt:?}", w.off));
             }
@@ -159,7 +176,10 @@ pub fn check_lookup(c: &LookupCase, st: &mut Stats) -> Result<(), String> {
     Ok(())
 }
 
-pub fn replay(_kind: &str, case: &Value) -> Result<(), String> {
+pub fn replay(kind: &str, case: &Value) -> Result<(), String> {
+    if kind == "clock" {
+        return crate::clock::check_clock(&serde_json::from_value(case.clone()).map_err(|e| e.to_string())?, true, false, &mut Stats::new());
+    }
     check_lookup(&serde_json::from_value(case.clone()).map_err(|e| e.to_string())?, &mut Stats::new())
 }
 
@@ -188,7 +208,7 @@ fn table_zone(n: usize, trailer_kind: u8, step: i64, t0: i64) -> MZone {
 pub fn run(ctx: &Ctx) -> Outcome {
     let mut out = Outcome::new(
         "(a) BOUNDED-EXHAUSTIVE: every table length n in 0..=256 (thorough 0..=600) x every query rank (T_k-1, T_k, T_k+1 for every k, far below/above, extremes) x 3 trailers (none, fixed, DST rule), with value-equal types in different slots; \
-         (b) proptest arb_zone: 0..24 transitions anywhere in i64 (gaps 1 s .. 2^62), repeated/no-op type indices, +-leap tables, all 6 shapes, queried at every transition -1/0/+1 on both time scales, table ends, i64 extremes and random instants; (c) big tables (1e3..1e5 entries) at random ranks. \
+         (b) proptest arb_zone: 0..24 transitions anywhere in i64 (gaps 1 s .. 2^62), repeated/no-op type indices, +-leap tables, all 6 shapes, queried at every transition -1/0/+1 on both time scales, table ends, i64 extremes and random instants; (c) big tables (1e3..1e5 entries) at random ranks; (d) find_current_local_time_type (owned and borrowed) on zones whose table / DST rule switches within seconds of the clock reading, answer = the model's for some instant of the bracket [clock before, clock after]. \
          Oracle: linear-scan timeline model (O-zone with O-leap switch instants). The returned type must equal the expected slot's type (offset, flag, designation; pointer identity is only counted), errors by kind; from_timespec fields = O-cal(instant + offset). Non-trivial: query within 1 s (+ leap count) of a transition of a table with >= 2 entries.",
     );
     out.assumptions = vec!["within 2^32 s of the i64 limits in a zone with a leap table only 'no panic' is asserted (an intermediate sum of the scan may overflow)".into(), "rule answers for 'overlapping' rules are unspecified".into()];
@@ -250,6 +270,14 @@ pub fn run(ctx: &Ctx) -> Outcome {
         }
         Ok(())
     });
+    out.absorb_all(rs);
+    if out.failure.is_some() {
+        return out;
+    }
+    // the clock-reading side entrance: find_current_local_time_type (owned and borrowed) on zones that switch around "now"; the answer
+    // must be the model's for some instant of the clock bracket read by the harness
+    let strat_c = crate::clock::arb_clock_case();
+    let rs = par_shards(8, |shard, st| pt_shard(ctx, "clock", 700 + shard, ctx.tier.pick(4_000u32, 60_000u32), &strat_c, st, |c, st| crate::clock::check_clock(c, true, false, st)));
     out.absorb_all(rs);
     if out.failure.is_some() {
         return out;
